@@ -142,10 +142,11 @@ Qed.
 
 (* ---- C08, hunt2 f1: migration on first load draws from the session's UUID source ---- *)
 
-(* when no definition of the source needs UUIDs to be read, what a session gets does not depend on what is cached *)
+(* when the flow a session ENTERS needs no UUIDs to be read (whatever the other flows of the source need), what the
+   session gets does not depend on what is cached *)
 Theorem enter_flow_cache_independent : forall draws src ops u ctr,
   NoDup (map a_uuid src) ->
-  (forall a, In a src -> draws (a_def a) = 0) ->
+  (forall a, by_uuid src u = Some a -> draws (a_def a) = 0) ->
   enter_flow draws src (after src ops) u ctr = enter_flow draws src [] u ctr.
 Proof.
   intros draws src ops u ctr Hnd H0. unfold enter_flow.
@@ -153,9 +154,22 @@ Proof.
   destruct (snd (get src [] u)) as [d|] eqn:Eg. 2: reflexivity.
   assert (Hd : draws d = 0).
   { unfold get in Eg. simpl in Eg. destruct (by_uuid src u) as [a|] eqn:Eb; simpl in Eg. 2: discriminate.
-    inversion Eg; subst. apply H0. clear - Eb. induction src as [|x r IH]; simpl in Eb. discriminate.
-    destruct (Nat.eqb (a_uuid x) u). inversion Eb. left. reflexivity. right. apply IH. exact Eb. }
+    inversion Eg; subst. apply H0. reflexivity. }
   simpl. rewrite Hd. rewrite Nat.add_0_r. destruct (cached (after src ops) u); reflexivity.
+Qed.
+
+(* the hypothesis is the negation of the finding and nothing more: when the entered flow exists, is not cached yet and
+   its migration draws, the warm answer differs from the cold one *)
+Theorem enter_flow_differs_iff_draws : forall draws src ops u ctr a,
+  NoDup (map a_uuid src) -> by_uuid src u = Some a -> cached (after src ops) u <> None ->
+  (enter_flow draws src (after src ops) u ctr = enter_flow draws src [] u ctr <-> draws (a_def a) = 0).
+Proof.
+  intros draws src ops u ctr a Hnd Hb Hc. split.
+  - unfold enter_flow. pose proof (cache_transparent src ops (LGet u) Hnd) as Ht. simpl in Ht. rewrite Ht.
+    unfold get at 1 2. simpl. rewrite Hb. simpl.
+    destruct (cached (after src ops) u) as [d|]. 2: contradiction Hc; reflexivity.
+    intro H. inversion H. lia.
+  - intro H. apply enter_flow_cache_independent. exact Hnd. intros a' Ha'. rewrite Hb in Ha'. inversion Ha'; subst. exact H.
 Qed.
 
 (* ... and with ONE definition that does (a flow stored below the current spec version), it does: after any other
